@@ -24,7 +24,7 @@ def run(ctx, out, budget):
                 "JSON-embedded type system; the coarse id-keyed dump of the last CAS must equal the dump of the CAS loaded first; the "
                 "same chain is executed by the model. Non-trivial = distinct (CAS, chain) with >= 3 structures.")
     rng = ctx.rng(0)
-    n = 100 if budget == "quick" else 2500
+    n = 100 if budget == "quick" else 20000
     cases = [casgen.CasGen(rng, n_types=rng.randint(1, 5), n_fs=rng.randint(1, 10), xmi_safe=True).build() for _ in range(n)]
     sess = []
     for k, g in enumerate(cases):
